@@ -31,6 +31,7 @@ def has_ctx(spec_text):
 CHECKS = {p: generic for p in GENERIC}
 
 
+
 # --------------------------------------------------------------------------------------------
 # fixed engines
 
@@ -215,3 +216,163 @@ def check_c13(root, prop, tier, seed, res):
 
 
 CHECKS["C13"] = check_c13
+
+
+# --------------------------------------------------------------------------------------------
+# C12: expansion terminates (step budget), output compiles, expansion is deterministic
+
+TINY = dict(VP_EXH_MAX=150, VP_EXH_LEN=4, VP_RANDOM=10, VP_GUIDED=10, VP_ALPHA_CAP=4, VP_THREADS=4)
+TINY_T = dict(VP_EXH_MAX=600, VP_EXH_LEN=5, VP_RANDOM=20, VP_GUIDED=30, VP_ALPHA_CAP=5, VP_THREADS=4)
+
+C12_CFG = dict(
+    rule="every generated definition must expand within the step budget of hook H1 and compile without an error attributed to its lexer! invocation (rustc JSON diagnostics, attributed by line); shapes: several lexers (2-4, with search tables, right contexts and actions) declared in ONE module, large built-in classes in rules and in right contexts, right contexts of every operator shape, bracket sets repeating a character, 1-7 rule sets, cyclic automata with many accepting states, 40-70-rule realistic definitions (keywords, identifiers via XID classes, numbers with contexts, strings and comments through rule sets); two expansions of the same file in separate processes (rustc -Zunpretty=expanded) are compared byte-wise. Non-trivial = distinct lexers compiled.",
+    nt="variants",
+    # realistic definitions with XID classes legitimately need ~1e7-1e8 steps (quadratic range-map inserts)
+    step_budget=1000000000,
+    parts=[("multi", "multi", 60, 600, 6, TINY, TINY_T),
+           ("bigclass", "base", 60, 800, 10, TINY, TINY_T),
+           ("rctx", "base", 60, 800, 20, TINY, TINY_T),
+           ("realistic", "base", 16, 160, 2, TINY, TINY_T),
+           ("rulesets", "base", 60, 800, 20, TINY, TINY_T),
+           ("munch", "base", 60, 1600, 20, TINY, TINY_T),
+           ("mixed", "base", 60, 800, 20, TINY, TINY_T)],
+)
+
+
+def check_c12(root, prop, tier, seed, res):
+    t0 = time.time()
+    eng = run_generic(root, prop, tier, seed, res, cfg=C12_CFG)
+    for x in eng.compile_failures():
+        res.violations.append(x)
+    res.extra["build_and_run_wall_s"] = round(time.time() - t0, 1)
+    # determinism: expand two files twice in separate processes
+    env = dict(eng.env)
+    env["RUSTC_BOOTSTRAP"] = "1"
+    picks = []
+    for fam in ("multi", "realistic", "mixed"):
+        b = next((b for b in eng.batches if b.family == fam and b.built), None)
+        if b:
+            picks.append(b)
+    n_cmp = 0
+    for b in picks[: (2 if tier == "quick" else 3)]:
+        src = os.path.join(eng.work, "src", "bin", b.name + ".rs")
+        outs = []
+        for k in range(2):
+            os.utime(src, None)
+            rc, out, err, to = run(["cargo", "rustc", "--offline", "--bin", b.name, "--", "-Zunpretty=expanded"], cwd=eng.work, env=env, timeout=3600)
+            if rc != 0 or not out:
+                res.inconclusive.append("could not obtain the expanded source of %s: %s" % (b.name, err[-400:]))
+                outs = None
+                break
+            outs.append(out)
+        if outs:
+            n_cmp += 1
+            if outs[0] != outs[1]:
+                a, bb = outs[0].splitlines(), outs[1].splitlines()
+                i = next((i for i in range(min(len(a), len(bb))) if a[i] != bb[i]), min(len(a), len(bb)))
+                res.violations.append({"what": "two expansions of the same definitions differ (first difference at expanded line %d)" % (i + 1),
+                                       "family": b.family, "index": b.indices[0], "batch": b.name,
+                                       "expected": a[i][:300] if i < len(a) else "", "observed": bb[i][:300] if i < len(bb) else ""})
+    res.extra["double_expansions_compared"] = n_cmp
+    res.extra["expanded_lines_compared"] = None
+    if eng.ticks:
+        ts = sorted(eng.ticks)
+        res.extra["expansion_ticks"] = {"max": ts[-1], "median": ts[len(ts) // 2], "p99": ts[int(len(ts) * 0.99) - 1], "budget": int(eng.env.get("LEXGEN_VERIF_STEP_BUDGET"))}
+
+
+CHECKS["C12"] = check_c12
+
+
+# --------------------------------------------------------------------------------------------
+# C17: ill-formed definitions are rejected
+
+def check_c17(root, prop, tier, seed, res):
+    eng = GenericEngine(root, prop, tier, seed)
+    eng.prepare()
+    n_cases = 24 if tier == "quick" else 240
+    per = 4
+    base = (seed % 1000) * 1000
+    idx = list(range(base, base + n_cases))
+    eng.add_batches("illformed", "base", idx, per, {})
+    eng.generate()
+    cmd = ["cargo", "check", "--offline", "--keep-going", "--message-format=json"]
+    for b in eng.batches:
+        cmd += ["--bin", b.name]
+    t0 = time.time()
+    rc, out, err, to = run(cmd, cwd=eng.work, env=eng.env, timeout=3600)
+    log("  cargo check: rc=%s %.1fs" % (rc, time.time() - t0))
+    if to:
+        raise Inconclusive("cargo check hit the wall-clock watchdog")
+    errors = {}   # (batch, case, variant) -> messages
+    unattributed = []
+    for line in out.splitlines():
+        if not line.startswith("{"):
+            continue
+        try:
+            m = json.loads(line)
+        except ValueError:
+            continue
+        if m.get("reason") != "compiler-message":
+            continue
+        msg = m.get("message", {})
+        if msg.get("level") != "error":
+            continue
+        tname = m.get("target", {}).get("name")
+        b = next((x for x in eng.batches if x.name == tname), None)
+        if b is None:
+            continue
+        ent = eng._attribute(b, msg)
+        text = msg.get("message", "")
+        for c in msg.get("children", []):
+            if c.get("message"):
+                text += " | " + c["message"]
+        if ent is None:
+            if "aborting due to" not in text and "could not compile" not in text:
+                unattributed.append(text[:300])
+            continue
+        errors.setdefault((b.name, ent["case"], ent["variant"]), []).append(text[:300])
+    kinds = {}
+    evals = 0
+    samples = []
+    for b in eng.batches:
+        ctrl_bad = set()
+        for ent in b.map:
+            key = (b.name, ent["case"], ent["variant"])
+            evals += 1
+            if ent["control"]:
+                if key in errors:
+                    ctrl_bad.add(ent["case"])
+                    res.inconclusive.append("control (well-formed) definition illformed#%s is rejected: %s" % (ent["index"], errors[key][0]))
+                continue
+        for ent in b.map:
+            if ent["control"]:
+                continue
+            key = (b.name, ent["case"], ent["variant"])
+            k = kinds.setdefault(ent["label"], {"cases": 0, "rejected": 0, "positions": set()})
+            k["cases"] += 1
+            k["positions"].add(ent.get("where", ""))
+            if key in errors:
+                k["rejected"] += 1
+                if len(samples) < 3:
+                    samples.append({"violation": ent["label"], "where": ent.get("where"), "diagnostic": errors[key][0][:200]})
+            else:
+                res.violations.append({
+                    "what": "ill-formed definition accepted without an error: %s (%s)" % (ent["label"], ent.get("where", "")),
+                    "family": "illformed", "index": ent["index"], "variant": ent["variant"], "variant_label": ent["label"],
+                    "definition": ent["label"], "source": ent["source"],
+                })
+    if unattributed and not errors:
+        res.inconclusive.append("errors could not be attributed: %s" % unattributed[0])
+    res.coverage["evaluations"] = evals
+    res.coverage["distinct_nontrivial"] = sum(len(k["positions"]) for k in kinds.values())
+    res.coverage["rule"] = ("each generated well-formed multi-rule-set definition (control, must produce no error) is turned into mutants with exactly one static violation at a random position: unbound variable (rule / context / used let), variable defined twice (top/top, top/local, local/local), rule set defined twice, first rule set not Init, Init not first, unknown built-in, each non-class operand kind on either side of `#` (string, *, +, ?, concatenation, $, variable bound to a string), named+unnamed rules mixed, error type twice, `type` item other than Error, and syntax errors (missing comma, missing right-hand side, dangling |, `rule` misspelt, stray token, missing ; after the header, let without =, string inside a bracket set); every mutant sits in its own module and must produce an error-level rustc diagnostic attributed to its own lines. Non-trivial = distinct (violation kind, position) pairs.")
+    res.coverage["samples"] = samples
+    res.extra["kinds"] = {k: {"cases": v["cases"], "rejected": v["rejected"], "distinct_positions": len(v["positions"])} for k, v in sorted(kinds.items())}
+    res.extra["violation_kinds"] = len(kinds)
+    res.extra["toolchain"] = toolchain()
+    res.extra["repo_fingerprint"] = repo_fingerprint()
+    if len(kinds) < 20 and not res.violations:
+        res.inconclusive.append("only %d violation kinds were generated" % len(kinds))
+
+
+CHECKS["C17"] = check_c17
